@@ -5,7 +5,9 @@ import (
 	"encoding/json"
 	"errors"
 	"fmt"
+	"math/bits"
 	"reflect"
+	"strings"
 	"testing"
 
 	"go.lstv.dev/util/size"
@@ -104,6 +106,17 @@ func judge(c Case, w *vkit.W) {
 	if err != nil {
 		w.Fail(c, "marshal-error", fmt.Sprintf("Size(%d).MarshalText() error %v (switches %03b)", c.S, err, c.Switches))
 	} else {
+		if bits.OnesCount64(c.S)%2 == 0 || c.Hooks {
+			// the value's own text with the unit in another letter case is read first (accepted or not, the result is dropped):
+			// a near miss of the unit just before must not influence how the real one is read
+			for _, alt := range []string{strings.ToLower(string(text)), strings.ToUpper(string(text))} {
+				if alt != string(text) {
+					var junk size.Size
+					_ = junk.UnmarshalText([]byte(alt))
+					_ = junk.UnmarshalJSON([]byte(`"` + alt + `"`))
+				}
+			}
+		}
 		back := other
 		if err := back.UnmarshalText(w.Scratch(string(text))); err != nil || back != s { // read from a reused caller buffer
 			w.Fail(c, "text-round-trip", fmt.Sprintf("Size(%d): MarshalText = %q, UnmarshalText -> %d, %v (switches %03b)", c.S, text, uint64(back), err, c.Switches))
